@@ -48,6 +48,18 @@ def bip32_derive(seed, components):
     return k
 
 
+def bip32_trace(seed, components):
+    """[(key, chain code)] for the master node and every level of the path."""
+    k, c = bip32_master(seed)
+    if not (1 <= k < N):
+        raise InvalidChild()
+    out = [(k, c)]
+    for index, hardened in components:
+        k, c = bip32_ckd(k, c, index, hardened)
+        out.append((k, c))
+    return out
+
+
 # ---------------------------------------------------------------- HD path grammar
 _COMPONENT = re.compile(r"(0|[1-9][0-9]*)('?)\Z")
 
